@@ -35,6 +35,7 @@ type Req struct {
 	Ranges []Range // parsed Range header (nil = none)
 	Header http.Header
 	Digest string // blob digest addressed (if any)
+	Body   []byte // request body (token requests are form posts)
 	// Action actually taken
 	Action string
 }
@@ -144,10 +145,12 @@ var errConn = errors.New("memreg: connection refused (scripted)")
 
 // RoundTrip implements http.RoundTripper.
 func (r *Registry) RoundTrip(req *http.Request) (*http.Response, error) {
+	var reqBody []byte
 	if req.Body != nil {
+		reqBody, _ = io.ReadAll(io.LimitReader(req.Body, 1<<16))
 		req.Body.Close()
 	}
-	rq := Req{Method: req.Method, Host: req.URL.Host, Path: req.URL.Path, Query: req.URL.RawQuery, Header: req.Header.Clone()}
+	rq := Req{Body: reqBody, Method: req.Method, Host: req.URL.Host, Path: req.URL.Path, Query: req.URL.RawQuery, Header: req.Header.Clone()}
 	rq.Ranges, _ = ParseRanges(req.Header.Get("Range"))
 	if i := strings.LastIndex(req.URL.Path, "/blobs/"); i >= 0 {
 		rq.Digest = req.URL.Path[i+len("/blobs/"):]
